@@ -5,15 +5,20 @@ namespace MythVerif.WsqTso
 open MythVerif.Wsq
 
 
-/-- a non-empty buffer of a thief / passer: it holds the lock and the buffer is one pending `base`
-    store of take, or the pending stores of trypass -/
+/-- a non-empty buffer of a participant other than the owner: it holds the lock and the buffer is
+    the pending `base` store of take / wsapi take / wsapi peek (increment or roll-back), the pending
+    stores of trypass, or a store of the cache word -/
 theorem thief_buf_shape (s : St) (h : Inv s) (p : Pid) (st : Sto) (rest : List Sto) (hb : s.bufT p = st :: rest) :
     s.lock = .thief p ∧
-    ((∃ b, s.tpc p = .tkf b ∧ st = .base (b + 1) ∧ rest = [] ∧ s.lb = b ∧ s.tr = false) ∨
-     (s.tpc p = .tk6 ∧ st = .base s.lb ∧ rest = [] ∧ s.tr = true) ∨
+    ((∃ b, (s.tpc p = .tkf b ∨ s.tpc p = .wkf b ∨ s.tpc p = .vkf b) ∧ st = .base (b + 1) ∧ rest = [] ∧
+        s.lb = b ∧ s.tr = false) ∨
+     ((s.tpc p = .tk6 ∨ s.tpc p = .wk6 ∨ s.tpc p = .vu) ∧ st = .base s.lb ∧ rest = [] ∧ s.tr = true) ∨
      (∃ e, s.tpc p = .tp3 e ∧ st = .ptr (s.lb - 1) (some e) ∧ rest = []) ∨
      (∃ e ok, s.tpc p = .tp4 ok ∧ st = .ptr (s.lb - 1) (some e) ∧ rest = [.baseI (s.lb - 1) e]) ∨
-     (∃ e ok, s.tpc p = .tp4 ok ∧ st = .baseI (s.lb - 1) e ∧ rest = [] ∧ s.ptr (s.lb - 1) = some e)) := by
+     (∃ e ok, s.tpc p = .tp4 ok ∧ st = .baseI (s.lb - 1) e ∧ rest = [] ∧ s.ptr (s.lb - 1) = some e) ∨
+     (∃ x, st = .cache x ∧
+        ((∃ r, s.tpc p = .wk4u r ∧ rest = []) ∨ (∃ b, s.tpc p = .vk5 b ∧ rest = []) ∨
+         (s.tpc p = .vu ∧ rest = [.base s.lb] ∧ s.tr = true)))) := by
   have hl := h.lockT p
   cases hpc : s.tpc p
   case tkf b =>
@@ -36,6 +41,36 @@ theorem thief_buf_shape (s : St) (h : Inv s) (p : Pid) (st : Sto) (rest : List S
     simp only [InsShape, hb] at this
     simp [hpc, thiefLocked] at hl
     grind
+  case wkf b =>
+    have := h.wkf p b hpc
+    simp only [TkfShape, hb] at this
+    simp [hpc, thiefLocked] at hl
+    grind
+  case wk6 =>
+    have := h.wk6 p hpc
+    simp only [Tk6Shape, hb] at this
+    simp [hpc, thiefLocked] at hl
+    grind
+  case wk4u r =>
+    have := (h.wk4u p r hpc).2
+    simp only [Wk4uShape, hb] at this
+    simp [hpc, thiefLocked] at hl
+    grind
+  case vkf b =>
+    have := h.vkf p b hpc
+    simp only [TkfShape, hb] at this
+    simp [hpc, thiefLocked] at hl
+    grind
+  case vk5 b =>
+    have := (h.vk5 p b hpc).2.2
+    simp only [Vk5Shape, hb] at this
+    simp [hpc, thiefLocked] at hl
+    grind
+  case vu =>
+    have := h.vu p hpc
+    simp only [VuShape, hb] at this
+    simp [hpc, thiefLocked] at hl
+    grind
   all_goals (have := h.tbufE p (by simp [hpc, mayBuf]); rw [hb] at this; cases this)
 
 theorem thief_owner_unlocked (s : St) (h : Inv s) (p : Pid) (hl : s.lock = .thief p) : ownerLocked s.opc = false := by
@@ -45,7 +80,7 @@ theorem thief_owner_unlocked (s : St) (h : Inv s) (p : Pid) (hl : s.lock = .thie
 
 set_option maxHeartbeats 4000000 in
 theorem f_T_inc (s : St) (p : Pid) (b : Int) : Inv s → s.lock = .thief p → s.bufT p = [.base (b + 1)] →
-    s.tpc p = .tkf b → s.lb = b → s.tr = false →
+    (s.tpc p = .tkf b ∨ s.tpc p = .wkf b ∨ s.tpc p = .vkf b) → s.lb = b → s.tr = false →
     Inv (applySto { s with bufT := upd s.bufT p [] } (.base (b + 1))) := by
   intro h hl hb hpc hlb htr
   have hnot := thief_owner_unlocked s h p hl
@@ -54,11 +89,12 @@ theorem f_T_inc (s : St) (p : Pid) (b : Int) : Inv s → s.lock = .thief p → s
   rw [hd]
   cases h
   simp only [ownerLocked, carry, resetting, ownerFlight] at *
-  tso_finish3
+  rcases hpc with hpc | hpc | hpc
+  all_goals tso_finish3
 
 set_option maxHeartbeats 4000000 in
 theorem f_T_rb (s : St) (p : Pid) : Inv s → s.lock = .thief p → s.bufT p = [.base s.lb] →
-    s.tpc p = .tk6 → s.tr = true →
+    (s.tpc p = .tk6 ∨ s.tpc p = .wk6 ∨ s.tpc p = .vu) → s.tr = true →
     Inv (applySto { s with bufT := upd s.bufT p [] } (.base s.lb)) := by
   intro h hl hb hpc htr
   have hnot := thief_owner_unlocked s h p hl
@@ -67,6 +103,7 @@ theorem f_T_rb (s : St) (p : Pid) : Inv s → s.lock = .thief p → s.bufT p = [
   rw [hd]
   cases h
   simp only [ownerLocked, carry, resetting, ownerFlight] at *
-  tso_finish3
+  rcases hpc with hpc | hpc | hpc
+  all_goals tso_finish3
 
 end MythVerif.WsqTso
